@@ -222,9 +222,9 @@ func cmdCheck(args []string) int {
 	_ = isSweep
 	dir, _ := os.MkdirTemp("/var/tmp", "govc-"+prop+"-")
 	defer os.RemoveAll(dir)
-	opts := SolveOpts{Dir: dir, QuickMs: 1500, FallbackS: 45, Prop: prop}
+	opts := SolveOpts{Dir: dir, QuickMs: 1500, FallbackS: 75, Prop: prop}
 	if baseline {
-		opts = SolveOpts{Dir: dir, QuickMs: 2500, FallbackS: 12, Prop: prop}
+		opts = SolveOpts{Dir: dir, QuickMs: 3000, FallbackS: 25, Prop: prop}
 		if len(multi) > 0 {
 			opts.Prop = ""
 		}
